@@ -56,13 +56,44 @@ def _ctor_tuple(call: ast.Call, fields: List[str]):
 
 
 def scalarise(trees: List[Tuple[str, ast.Module]], known: Set[str]) -> List[str]:
-    """rewrite the trees in place; returns the names of the NamedTuple classes that were dissolved"""
-    nts = _nt_classes(trees, known)
+    """rewrite the trees in place; returns the names of the NamedTuple classes that were dissolved.  A class name that several modules define
+    (each its own private tuple) means, inside a module, that module's class; elsewhere it is ambiguous and left alone."""
+    per_mod: Dict[str, Dict[str, List[str]]] = {}
+    meths: Dict[str, Dict[str, Dict[str, ast.FunctionDef]]] = {}
+    for mod, tree in trees:
+        per_mod[mod] = dict(_nt_classes([(mod, tree)], known))
+        meths[mod] = {k: dict(v) for k, v in _NT_METHODS.items()}
+    glob = _nt_classes(trees, known)
+    gmeths = {k: dict(v) for k, v in _NT_METHODS.items()}
+    done: Set[str] = set()
+    for mod, tree in trees:
+        visible = {k: v for k, v in glob.items()}
+        vm = {k: v for k, v in gmeths.items() if k in visible}
+        # a class imported by name from the module that defines it
+        for st in tree.body:
+            if isinstance(st, ast.ImportFrom) and st.module:
+                for a in st.names:
+                    srcs = [m_ for m_ in per_mod if a.name in per_mod[m_] and (m_ == st.module or m_.endswith("." + st.module) or st.module.endswith(m_))]
+                    if len(srcs) == 1 and (a.asname or a.name) == a.name:
+                        visible[a.name] = per_mod[srcs[0]][a.name]
+                        vm[a.name] = meths[srcs[0]].get(a.name, {})
+        visible.update(per_mod[mod])
+        vm.update(meths[mod])
+        if not visible:
+            continue
+        _NT_METHODS.clear()
+        _NT_METHODS.update(vm)
+        done.update(_scalarise_with(trees, [(mod, tree)], visible))
+    return sorted(done)
+
+
+def _scalarise_with(all_trees: List[Tuple[str, ast.Module]], trees: List[Tuple[str, ast.Module]], nts: Dict[str, List[str]]) -> List[str]:
     if not nts:
         return []
     # functions (by simple name, package wide) all of whose returns construct one of these classes
     returns: Dict[str, Set[str]] = {}
-    for _mod, tree in trees:
+    local_mods = {m_ for m_, _t in trees}
+    for _mod, tree in all_trees:
         for fn in ast.walk(tree):
             if not isinstance(fn, (ast.FunctionDef, ast.AsyncFunctionDef)):
                 continue
@@ -82,7 +113,7 @@ def scalarise(trees: List[Tuple[str, ast.Module]], known: Set[str]) -> List[str]
                 fn._jv_ret_nt = next(iter(kinds))  # type: ignore[attr-defined]
     ret_nt = {f: next(iter(k)) for f, k in returns.items() if len(k) == 1}
     defs_per_name: Dict[str, int] = {}
-    for _mod, tree in trees:
+    for _mod, tree in all_trees:
         for fn in ast.walk(tree):
             if isinstance(fn, (ast.FunctionDef, ast.AsyncFunctionDef)):
                 defs_per_name[fn.name] = defs_per_name.get(fn.name, 0) + 1
